@@ -357,8 +357,8 @@ def execute(chk, ctx, it, p):
     o = ctx.run(tool, t, prepare=prepare)
     if o.klass[0] == 'hang':
         # CPU time includes system time, and on a machine whose memory management is contended a 50 ms run has been seen
-        # to burn its 10 s: a hang must persist with six times the bound before it is believed
-        t2 = dict(t, cpu_limit_s=6 * chk.CPU_LIMIT)
+        # to burn its 10 s: a hang must persist with three times the bound before it is believed
+        t2 = dict(t, cpu_limit_s=3 * chk.CPU_LIMIT)
         o2 = ctx.run(tool, t2, prepare=prepare)
         if o2.klass[0] != 'hang':
             o = o2
